@@ -6,6 +6,7 @@ import (
 	"bytes"
 	"context"
 	"fmt"
+	"math/rand"
 	"os"
 	"os/exec"
 	"path/filepath"
@@ -13,6 +14,8 @@ import (
 	"sync"
 	"time"
 )
+
+var shuffleSeed int
 
 type Verdict struct {
 	Oblig    *Oblig
@@ -59,7 +62,14 @@ func (vc *VC) scriptMode(o *Oblig, prelude string, axioms []string, wantModel bo
 	for _, a := range vc.rootAssum {
 		emit(a)
 	}
-	for _, a := range vc.assum[:o.nAssum] {
+	vis := vc.assum[:o.nAssum]
+	if shuffleSeed != 0 {
+		// robustness experiment: the same assumptions in a pseudo-random order (no effect on meaning)
+		vis = append([]string(nil), vis...)
+		r := rand.New(rand.NewSource(int64(shuffleSeed)))
+		r.Shuffle(len(vis), func(i, j int) { vis[i], vis[j] = vis[j], vis[i] })
+	}
+	for _, a := range vis {
 		emit(a)
 	}
 	body.WriteString("(assert " + o.Guard + ")\n")
@@ -246,7 +256,25 @@ func (pr *Prover) discharge(vc *VC, o *Oblig, prelude string, axioms []string) *
 	} else if t1 > 4*time.Second {
 		t1 = 4 * time.Second
 	}
-	proved, sat, errRes := record(runGroup([]attempt{{cfg: cfgs[0], file: file, timeout: t1}}))
+	stage1 := []attempt{{cfg: cfgs[0], file: file, timeout: t1}}
+	var s1extra []string
+	if quant && o.Kind != "canary" && !containsQuant(o.Goal) && strings.Contains(o.Goal, "str.") {
+		// string obligations: cvc5 on the quantifier-free weakening decides them at once; run it alongside
+		s2, _ := vc.scriptMode(o, prelude, axioms, false, true)
+		f2 := file + ".qf1.smt2"
+		if err := os.WriteFile(f2, []byte(s2), 0o644); err == nil {
+			s1extra = append(s1extra, f2)
+			stage1 = append(stage1, attempt{cfg: solversFor(false, pr.tier)[2], file: f2, stripped: true, timeout: t1})
+		}
+	}
+	proved, sat, errRes := record(runGroup(stage1))
+	if !pr.keep {
+		defer func() {
+			for _, f := range s1extra {
+				os.Remove(f)
+			}
+		}()
+	}
 	if proved {
 		if pr.tier == "thorough" && o.Kind != "canary" {
 			// cross-check with the other z3 version: "sat" from it contradicts the proof (engine error, not a verdict)
